@@ -244,6 +244,10 @@ func Close(fd int) error {
 func Socket(domain, typ, proto int) (int, error) {
 	vsched.Yield("sys:socket")
 	k := kern()
+	if fe, _ := k.fault("socket", nil); fe != 0 {
+		k.trace("sys %s socket() -> %s", k.taskName(), unix.ErrnoName(fe))
+		return -1, fe
+	}
 	f := k.newFile(kUnbound, OwnFramework)
 	f.family = domain
 	f.sotype = typ &^ (unix.SOCK_NONBLOCK | unix.SOCK_CLOEXEC)
@@ -271,6 +275,10 @@ func Bind(fd int, sa unix.Sockaddr) error {
 	}
 	if f.kind != kUnbound {
 		return unix.EINVAL
+	}
+	if fe, _ := k.fault("bind", f); fe != 0 {
+		k.use("bind", fd, unix.ErrnoName(fe))
+		return fe
 	}
 	switch f.sotype {
 	case unix.SOCK_STREAM:
@@ -319,6 +327,10 @@ func Listen(fd int, backlog int) error {
 	}
 	if f.kind != kUnbound || f.lst == nil {
 		return unix.EINVAL
+	}
+	if fe, _ := k.fault("listen", f); fe != 0 {
+		k.use("listen", fd, unix.ErrnoName(fe))
+		return fe
 	}
 	f.kind = kListener
 	k.use("listen", fd, "0")
@@ -397,6 +409,10 @@ func Accept(fd int) (int, unix.Sockaddr, error) { return Accept4(fd, 0) }
 func EpollCreate1(flag int) (int, error) {
 	vsched.Yield("sys:epoll_create")
 	k := kern()
+	if fe, _ := k.fault("epoll_create", nil); fe != 0 {
+		k.trace("sys %s epoll_create1() -> %s", k.taskName(), unix.ErrnoName(fe))
+		return -1, fe
+	}
 	f := k.newFile(kEpoll, OwnFramework)
 	f.ep = &Epoll{file: f}
 	fd := k.install(f, OwnFramework)
@@ -408,6 +424,10 @@ func EpollCreate1(flag int) (int, error) {
 func Eventfd(initval uint, flags int) (int, error) {
 	vsched.Yield("sys:eventfd")
 	k := kern()
+	if fe, _ := k.fault("eventfd", nil); fe != 0 {
+		k.trace("sys %s eventfd() -> %s", k.taskName(), unix.ErrnoName(fe))
+		return -1, fe
+	}
 	f := k.newFile(kEventfd, OwnFramework)
 	f.efd = &eventfdObj{file: f, counter: uint64(initval) + k.EfdStart}
 	fd := k.install(f, OwnFramework)
@@ -648,6 +668,10 @@ func (k *Kernel) dup(call string, fd int) (int, Errno) {
 		k.frameworkFd(call, fd)
 		return -1, unix.EBADF
 	}
+	if fe, _ := k.fault(call, e.file); fe != 0 {
+		k.use(call, fd, unix.ErrnoName(fe))
+		return -1, fe
+	}
 	nfd := k.install(e.file, OwnFramework)
 	k.use(call, fd, fmt.Sprintf("fd=%d", nfd))
 	k.Stats["dup"]++
@@ -696,6 +720,10 @@ func (k *Kernel) setopt(fd int, name string, v int) error {
 	if e == nil {
 		k.frameworkFd("setsockopt", fd)
 		return unix.EBADF
+	}
+	if fe, _ := k.fault("setsockopt", e.file); fe != 0 {
+		k.use("setsockopt", fd, unix.ErrnoName(fe))
+		return fe
 	}
 	e.file.opts[name] = v
 	if name == "sndbuf" && e.file.kind == kStream && v > 0 {
